@@ -213,6 +213,57 @@ fn rand_params_any(rng: &mut Rng) -> P {
     }
 }
 
+/// reference transcription of the documented proven-security bound (list-decoding regime,
+/// Theorem 8 / eq. 7 of eprint 2022/1216 as cited in the library's comments): for every proximity
+/// parameter m in 3..min(ceil(h/4 (1 + sqrt(1 + 2/h))), 1000) the minimum of the FRI commit-phase,
+/// FRI query-phase (with grinding), ALI and DEEP error exponents, each reduced by one bit; the best
+/// m; capped by the collision resistance. Truncations to integers are taken at value + eps, so that
+/// [bound(-eps), bound(+eps)] tolerates other orders of floating-point evaluation
+fn proven_ref(p: &P, cr: u32, eps: f64) -> u64 {
+    let bits = [62.0, 64.0, 128.0][p.field] * p.ext as f64;
+    let h = (1u64 << p.log_n) as f64;
+    let blowup = p.blowup as f64;
+    let rho = 1.0 / blowup;
+    let lde = h * blowup;
+    let tr = |x: f64| -> u64 {
+        let y = x + eps;
+        if y <= 0.0 {
+            0
+        } else {
+            y.floor() as u64
+        }
+    };
+    let m_max = ((0.25 * h * (1.0 + (1.0 + 2.0 / h).sqrt())).ceil() as u64).min(1000);
+    let mut best = 0u64;
+    for m in 3..m_max {
+        let m = m as f64;
+        let alpha = (1.0 + 0.5 / m) * rho.sqrt();
+        let rho_plus = (h + 2.0) / lde;
+        let m_plus = (1.0 / (2.0 * (alpha / rho_plus.sqrt() - 1.0))).ceil();
+        let alpha_plus = (1.0 + 0.5 / m_plus) * rho_plus.sqrt();
+        let theta_plus = 1.0 - alpha_plus;
+        let commit = bits - ((0.5 * (m + 0.5).powf(7.0) / rho.powf(1.5)) * lde.powf(2.0)).log2();
+        let query = p.grind as f64 - (1.0 - theta_plus).powf(p.q as f64).log2();
+        let fri = tr(commit).min(tr(query));
+        let v = if fri < 1 {
+            0
+        } else {
+            let fri = fri - 1;
+            let l_plus = (2.0 * m_plus + 1.0) / (2.0 * rho_plus.sqrt());
+            let ali = -l_plus.log2() + bits;
+            let deep = -(l_plus * ((blowup + 1.0) * (h + 2.0 - 1.0) + (h - 1.0))).log2() + bits;
+            let mn = fri.min(tr(ali)).min(tr(deep));
+            if mn < 1 {
+                0
+            } else {
+                mn - 1
+            }
+        };
+        best = best.max(v);
+    }
+    best.min(cr as u64)
+}
+
 fn proven_sample(run: &Run, template: &Proof) {
     run.par("proven", run.size(60_000, 3_000_000), |_i, rng, st| {
         let p = rand_params(rng);
@@ -254,6 +305,13 @@ fn proven_sample(run: &Run, template: &Proof) {
         if base > cr {
             st.violation("proven:exceeds-collision-resistance", pj(&p));
         }
+        // the estimate equals the documented bound (m_plus is the result of a ceil(): near its
+        // jumps both neighbouring values are admitted through the eps window of the truncations)
+        let (lo, hi) = (proven_ref(&p, cr, -1e-6), proven_ref(&p, cr, 1e-6));
+        if (base as u64) < lo.min(hi) || (base as u64) > lo.max(hi) {
+            st.violation("proven:differs-from-documented-bound", J::obj(vec![("params", pj(&p)), ("collision_resistance", J::i(cr)), ("got", J::i(base)), ("reference_window", J::s(format!("{lo}..{hi}")))]));
+        }
+        st.count("proven.compared_with_reference");
         st.evals += dirs + 2;
         st.add("proven.monotonicity_pairs", dirs + 1);
         st.distinct.insert(wfv::fnv(format!("{:?}{cr}", p).as_bytes()));
